@@ -116,6 +116,13 @@ def check(run, project):
         _c07.check(_RVm(run, "NI-1", "R11"), project)
     except AnalysisError as ex:
         run.info(f"R11: the mode tests could not be followed ({ex}); not judged here (C07 reports it)")
+    # R12 (= C01-W0): how many bytes a field charges to the regions that enclose it is what the layout tables say (field lists
+    # and declared types, widths, the element counts of union arms): the decode facets of all types equal the pinned snapshot
+    from . import c20 as _c20
+    try:
+        _c20.t6(run, project, L, facets={"decode"}, rule="R12")
+    except AnalysisError as ex:
+        run.info(f"R12: the layout tables could not be compared ({ex}); not judged here (C01 / C20 report it)")
     run.floor("R1", 20, "region obligations")
     run.floor("R4", 20, "threaded call sites")
 
